@@ -641,7 +641,8 @@ PROPS = {
         "class_prefix": ["C18/", "C08/bytes-altered"],
         "theorems": ["Hd.Streams.C18_read_fifo", "Hd.Streams.C18_read_prefix", "Hd.Streams.C18_write_forward",
                      "Hd.Streams.C18_flush_shutdown_forwarded", "Hd.Streams.C18_run_spec", "Hd.Streams.C18_pipe_fifo",
-                     "Hd.Streams.C18_pipe_progress", "Hd.Sniff.C18_rewind_fifo", "Hd.Sniff.rewindRead_prefix_first"],
+                     "Hd.Streams.C18_pipe_progress", "Hd.Sniff.C18_rewind_fifo", "Hd.Sniff.rewindRead_prefix_first",
+                     "Hd.Streams.C18_pipe_bounded"],
         "streams": [
             {"name": "st", "quick": 6000, "thorough": 200000, "head": 1, "unit": 1, "nontrivial": st_nontrivial, "distribution": st_dist},
             {"name": "sniff", "quick": 3000, "thorough": 100000, "head": 1, "unit": 1, "nontrivial": sniff_nontrivial, "distribution": sniff_dist},
@@ -883,6 +884,7 @@ PROPS = {
         "props_module": "HdModel.Props.C20",
         "theorems": ["Hd.Sni.C20_decision", "Hd.Sni.C20_forward_only_if", "Hd.Sni.C20_match_forwarded",
                      "Hd.Sni.C20_rejects", "Hd.Sni.C20_port_irrelevant",
+                     "Hd.Sni.C20_case_irrelevant_host", "Hd.Sni.C20_case_irrelevant_sni",
                      "Hd.TlsInfo.C20_tls_request_never_told_plain", "Hd.TlsInfo.C20_holder_gets_info",
                      "Hd.TlsInfo.C20_late_request_gets_info", "Hd.TlsInfo.step_spec",
                      "Hd.TlsInfo.C20_lock_discipline", "Hd.TlsInfo.C20_lock_discipline_tls",
@@ -928,7 +930,7 @@ PROPS = {
         "class_prefix": ["C16/"],
         "theorems": ["Hd.Dns.C16_eq_spec", "Hd.Dns.C16_perm", "Hd.Dns.C16_both", "Hd.Dns.C16_no_preferred",
                      "Hd.Dns.C16_no_other", "Hd.Dns.C16_port", "Hd.Dns.C16_preference", "Hd.Dns.C16_connecting",
-                     "Hd.Dns.C16_idempotent"],
+                     "Hd.Dns.C16_idempotent", "Hd.Dns.C16_family_order"],
         "streams": [
             {"name": "dns", "quick": 6000, "thorough": 300000, "head": 5, "unit": 3,
              "nontrivial": dns_nontrivial, "distribution": dns_dist},
